@@ -2,8 +2,13 @@
    the observation has to be the same for both).
    op ::= :a addr size kind file line | :f addr|~ kind | :r addr|~ newaddr size kind file line
         | :dis | :en | :start | :stop | :inc | :dec | :das | :mark | :clr p | :q | :rep p         (p = enum MemLeakPeriod 0..3)
-   Observation: one item per :f/:r/:das/:q/:rep:
-        F nonalloc other | S nonalloc other | T all dis en chk | R noleaks toomany total k (addr size number file line kind)^k | E *)
+        | :af size kind file line w | :rf addr|~ size kind file line w
+          (the underlying allocator call fails: w = 1 the block -- alloc_memory / PlatformSpecificRealloc returns NULL --,
+           w = 2 the separate bookkeeping record -- allocMemoryLeakNode returns NULL; layout 0 has no such call: the block)
+   Observation: one item per :f/:r/:af/:rf/:das/:q/:rep:
+        F nonalloc other | S nonalloc other | T all dis en chk
+        | R noleaks toomany total mallocnote k (addr size number file line kind)^k | E
+   (F of a failing request: other = a failure was reported or the request did not answer NULL) *)
 let period_of = function 0 -> PAll | 1 -> PDisabled | 2 -> PEnabled | 3 -> PChecking | _ -> raise (Bad "period")
 let optaddr s = if s = "~" then None else Some (n_tok s)
 let rec ops c =
@@ -18,6 +23,10 @@ let rec ops c =
     | ":clr" -> OpClear (period_of (int_tok (next c)))
     | ":q" -> OpTotals
     | ":rep" -> OpReport (period_of (int_tok (next c)))
+    | ":af" -> let sz = n_tok (next c) in let k = n_tok (next c) in let f = n_tok (next c) in let l = n_tok (next c) in
+               let w = n_tok (next c) in OpAllocFail (sz, k, f, l, w)
+    | ":rf" -> let a = optaddr (next c) in let sz = n_tok (next c) in let k = n_tok (next c) in let f = n_tok (next c) in
+               let l = n_tok (next c) in let w = n_tok (next c) in OpReallocFail (a, sz, k, f, l, w)
     | t -> raise (Bad ("op " ^ t)) in
   o :: ops c
 let scenario ts = let c = { rest = ts } in let _layout = next c in ops c
@@ -26,9 +35,9 @@ let pentry e = String.concat " " [pn e.e_addr; pn e.e_size; pn e.e_number; pn e.
 let pitem = function
   | OF (na, oth) -> "F " ^ pbool na ^ " " ^ pbool oth
   | OT (a, b, c, d) -> String.concat " " ["T"; pn a; pn b; pn c; pn d]
-  | OR (nl, many, tot, ents) ->
+  | OR (nl, many, tot, ents, mn) ->
       let es = List.sort (fun x y -> compare (key x) (key y)) ents in
-      String.concat " " (["R"; pbool nl; pbool many; pn tot; Printf.sprintf "%x" (List.length es)] @ List.map pentry es)
+      String.concat " " (["R"; pbool nl; pbool many; pn tot; pbool mn; Printf.sprintf "%x" (List.length es)] @ List.map pentry es)
   | OS (na, oth) -> "S " ^ pn na ^ " " ^ pn oth
   | OErr -> "E"
 let run_line ts = let o = scenario ts in
@@ -39,11 +48,11 @@ let rec items c =
     | "F" -> let a = bool_tok (next c) in let b = bool_tok (next c) in OF (a, b)
     | "S" -> let a = n_tok (next c) in let b = n_tok (next c) in OS (a, b)
     | "T" -> let a = n_tok (next c) in let b = n_tok (next c) in let d = n_tok (next c) in let e = n_tok (next c) in OT (a, b, d, e)
-    | "R" -> let nl = bool_tok (next c) in let many = bool_tok (next c) in let tot = n_tok (next c) in
+    | "R" -> let nl = bool_tok (next c) in let many = bool_tok (next c) in let tot = n_tok (next c) in let mn = bool_tok (next c) in
              let es = counted c (fun c -> let a = n_tok (next c) in let s = n_tok (next c) in let n = n_tok (next c) in let f = n_tok (next c) in
                                           let l = n_tok (next c) in let k = n_tok (next c) in
                                           { e_addr = a; e_size = s; e_number = n; e_file = f; e_line = l; e_kind = k }) in
-             OR (nl, many, tot, es)
+             OR (nl, many, tot, es, mn)
     | "E" -> OErr
     | t -> raise (Bad ("item " ^ t)) in
   i :: items c
